@@ -17,7 +17,7 @@ From DX Require Import Bytes Res Codec Text Sections Header Json Writer.
 From DX Require HeaderFacts TextFacts WriterFacts Encodings.
 From DX Require Import WriterCanonFacts RoundTripBase RoundTripContent RoundTripSim RoundTrip.
 From DX Require Import SpecSerializer.
-From DX Require RoundTripCor RoundTripSeqExample.
+From DX Require RoundTripSeqExample.
 From DXGen Require GenSections GenText GenCodecs.
 Import ListNotations.
 Import String.StringSyntax.
@@ -669,32 +669,54 @@ Section Walk.
     destruct Hd as (r & ->). rewrite guess_json_text. reflexivity.
   Qed.
 
-  (* [meta_enc_b]: an encoding is in force (RoundTripSim.v).  With none the fixed writer accepts the call and writes
-     the JSON as bytes, while [spec_call] (no effective encoding for text) is undefined. *)
+  (* write_meta.  An encoding in force ([meta_enc_b], RoundTripSim.v): the JSON text, encoded.  None in force (the
+     fixed writer accepts the call and writes the JSON as bytes): the specification's ASCII-bytes section. *)
   Lemma meta_step : forall h s md enc fmt s',
-    Pos h s -> call_good (WriteMeta md enc fmt) -> meta_enc_b s (WriteMeta md enc fmt) = true ->
+    Pos h s -> call_good (WriteMeta md enc fmt) ->
     do_call (WriteMeta md enc fmt) s = (s', Ok tt) ->
     exists out, spec_call e0 h (WriteMeta md enc fmt) = Some (out, h) /\ w_out s' = w_out s ++ out.
   Proof.
-    intros h s md enc fmt s' HP (He & kv & ->) Hme H.
+    intros h s md enc fmt s' HP (He & kv & ->) H.
     destruct (content_target h s _ s' (B "meta") HP H eq_refl) as (Hlev & _ & _).
     assert (Hne : w_stack s <> []).
     { destruct (pos_facts h s HP) as (Hr & _). apply WriterFacts.Inv_stack, WriterFacts.reachable_inv, Hr. }
-    destruct (meta_call_inv _ _ _ _ _ Hne Hme H) as (j & d & Ej & Htr & Hfmt & Hd & Hn). injection Ej as <-.
+    destruct (meta_call_inv_gen _ _ _ _ _ H) as (j & d & he & Ej & Htr & Hfmt & Hd & Hhe & Hn). injection Ej as <-.
+    pose proof (has_enc_meta_enc s (WDict (JObj kv)) enc fmt he Hne Hhe) as Hme.
     assert (Hkv : kv <> []) by (intros ->; discriminate Htr).
     destruct (C02_length_exact _ _ _ _ _ _ _ _ _ _ Hn) as (body & le_out & hd & Hprep & Hh & _ & Hout & _ & _).
-    destruct (enc_ok_arg enc He) as (own & Hown & _ & Hsv & _).
-    destruct (text_content_spec h s (ascii_text d) WNone None WNone enc own body le_out HP He Hown la_none
-                (or_introl (conj eq_refl eq_refl)) Hprep) as (eb & kind & Heff & Hkind & Hlo & Hnil & Hbody).
-    unfold line_kind_text in Hkind. cbn [choice_arg str_arg obind] in Hkind. injection Hkind as Hkind.
-    rewrite (json_guess_unix kv d Hkv Hd) in Hkind. subst kind.
+    destruct (enc_ok_arg enc He) as (own & Hown & _ & Hsv & Eenc & _).
     destruct (format_views fmt Hfmt) as (f & Hf & Hsf & Hrf).
     destruct (prepared_le_out _ _ _ _ _ _ _ _ Hprep) as (x & _ & _ & Hlog & _).
+    assert (Hn0 : is_nil kv = false) by (destruct kv; [congruence|reflexivity]).
     exists (content_section (S (depth h)) (B "meta") own None None (B "format", Some f) body).
     split.
-    - cbn [spec_call]. rewrite Hown. cbn [obind]. rewrite Hf. cbn [obind]. rewrite Heff. cbn [obind].
-      assert (Hn0 : is_nil kv = false) by (destruct kv; [congruence|reflexivity]). rewrite Hn0, Hd.
-      change (map byte_n d) with (ascii_text d). rewrite Hbody. reflexivity.
+    - destruct he; cbv iota in Hprep.
+      + (* an encoding is in force *)
+        destruct (text_content_spec h s (ascii_text d) WNone None WNone enc own body le_out HP He Hown la_none
+                    (or_introl (conj eq_refl eq_refl)) Hprep) as (eb & kind & Heff & Hkind & Hlo & Hnil & Hbody).
+        unfold line_kind_text in Hkind. cbn [choice_arg str_arg obind] in Hkind. injection Hkind as Hkind.
+        rewrite (json_guess_unix kv d Hkv Hd) in Hkind. subst kind.
+        cbn [spec_call]. rewrite Hown. cbn [obind]. rewrite Hf. cbn [obind]. rewrite Hn0, Hd, Heff. cbn [obind].
+        change (map byte_n d) with (ascii_text d). rewrite Hbody. reflexivity.
+      + (* no encoding in force: the argument is None and no enclosing container declares one *)
+        cbn [meta_enc_b] in Hme. unfold Encodings.w_content_encoding in Hme.
+        destruct (wv_truthy enc) eqn:Et; cbn [negb andb] in Hme; [congruence|].
+        pose proof (RoundTripStep.enc_ok_falsy enc He Et) as ->. clear Eenc.
+        cbn [str_arg] in Hown. injection Hown as <-.
+        destruct (pos_facts h s HP) as (_ & _ & _ & top & Htop & Hdecl).
+        rewrite (WriterFacts.cur_encoding_hd s Hne) in Htop. injection Htop as Htop. rewrite Htop in Hme.
+        unfold Encodings.wdecl in Hdecl. rewrite Hme in Hdecl.
+        assert (Heff : effective e0 h None = None).
+        { cbn [effective]. destruct (Encodings.spec_effective e0 h); [discriminate Hdecl|reflexivity]. }
+        assert (Hb : exists r, d = x7b :: x0a :: r).
+        { unfold json_dump in Hd. rewrite dump_obj in Hd by exact Hkv.
+          destruct (dump_members 0 kv); [|discriminate Hd]. apply Ok_inj in Hd. subst d. eexists. reflexivity. }
+        destruct Hb as (r & Hr).
+        assert (Hce : eff_enc s WNone true = Ok top).
+        { unfold eff_enc. cbn [wv_truthy negb andb]. rewrite (WriterFacts.cur_encoding_hd s Hne), Htop. reflexivity. }
+        destruct (prepare_meta_bytes s d r WNone top body le_out Hr Hce Hme Hprep) as [Hbody _].
+        cbn [spec_call str_arg obind]. rewrite Hf. cbn [obind]. rewrite Hn0, Hd, Heff.
+        rewrite Hbody. reflexivity.
     - rewrite Hout. f_equal. rewrite Hlev in Hh. replace (depth h + 1) with (S (depth h)) in Hh by lia.
       eapply content_header_eq. 12: exact Hh.
       + reflexivity.
@@ -751,29 +773,28 @@ Section Walk.
 
   (* one accepted call: the writer appended exactly the section the specification puts at this position *)
   Lemma call_step : forall h s c s',
-    Pos h s -> call_good c -> meta_enc_b s c = true -> do_call c s = (s', Ok tt) ->
+    Pos h s -> call_good c -> do_call c s = (s', Ok tt) ->
     exists out h', spec_call e0 h c = Some (out, h') /\ w_out s' = w_out s ++ out /\ Pos h' s'.
   Proof.
-    intros h s c s' HP Hg Hme H.
+    intros h s c s' HP Hg H.
     assert (Hkeep : Encodings.call_transition c = None -> Pos h s').
     { intros Hc. rewrite <- (app_nil_r h). eapply (pos_step h s c s' []); [exact HP|exact H|]. rewrite Hc. reflexivity. }
     destruct c as [e|e|text enc ind le mt|md enc fmt|content dt enc le].
     - eapply container_step; eauto.
     - eapply container_step; eauto.
     - destruct (preamble_step _ _ _ _ _ _ _ _ HP Hg H) as (out & H1 & H2). exists out, h. auto.
-    - destruct (meta_step _ _ _ _ _ _ HP Hg Hme H) as (out & H1 & H2). exists out, h. auto.
+    - destruct (meta_step _ _ _ _ _ _ HP Hg H) as (out & H1 & H2). exists out, h. auto.
     - destruct (diff_step _ _ _ _ _ _ _ HP Hg H) as (out & H1 & H2). exists out, h. auto.
   Qed.
 
-  Lemma walk_correct : forall cs h s, Pos h s -> Forall call_good cs -> accepted s cs -> metas_encoded s cs ->
+  Lemma walk_correct : forall cs h s, Pos h s -> Forall call_good cs -> accepted s cs ->
     exists suf, walk e0 h cs = Some suf /\ w_out (snd (run_calls s cs)) = w_out s ++ suf.
   Proof.
-    induction cs as [|c t IH]; intros h s HP Hg Ha Hme.
+    induction cs as [|c t IH]; intros h s HP Hg Ha.
     - exists []. split; [reflexivity|]. cbn [run_calls snd]. rewrite app_nil_r. reflexivity.
     - inversion Hg as [|? ? Hc Ht]; subst. destruct (accepted_cons _ _ _ Ha) as (s' & Hd & Ha').
-      cbn [metas_encoded] in Hme. destruct Hme as [Hmc Hmt]. rewrite Hd in Hmt. cbn [fst] in Hmt.
-      destruct (call_step h s c s' HP Hc Hmc Hd) as (out & h' & Hs & Ho & HP').
-      destruct (IH h' s' HP' Ht Ha' Hmt) as (suf & Hw & Hr).
+      destruct (call_step h s c s' HP Hc Hd) as (out & h' & Hs & Ho & HP').
+      destruct (IH h' s' HP' Ht Ha') as (suf & Hw & Hr).
       exists (out ++ suf). split.
       + cbn [walk]. rewrite Hs. cbn [obind fst snd]. rewrite Hw. reflexivity.
       + rewrite WriterFacts.run_calls_cons, Hd. cbn [fst snd]. rewrite Hr, Ho, app_assoc. reflexivity.
@@ -811,18 +832,18 @@ End Walk.
 (* ================================================================================================ *)
 (** * The theorem *)
 
-(* [metas_encoded s0 cs] (RoundTripSim.v): at every write_meta an encoding is in force.  Without it the statement is
-   false of the fixed writer ([writer_is_spec_unencoded_refuted] below): DiffXWriter(encoding=None) accepts
-   write_meta and writes the JSON as bytes; the specification's serializer has no effective encoding for that
-   text and is undefined. *)
+(* Since the fix of write_meta a writer without any encoding (DiffXWriter(encoding=None), [enc_ok] allows it) accepts
+   write_meta and writes the JSON as bytes; the specification's serializer puts the same ASCII-bytes section there
+   ([spec_call], "no encoding in force"), so the statement needs no hypothesis about encodings:
+   [writer_is_spec_unencoded_ex] below. *)
 Theorem C02_writer_is_spec_thm : forall enc0 ver s0 cs,
-  writer_init enc0 ver = (s0, Ok tt) -> enc_ok enc0 -> Forall call_good cs -> accepted s0 cs -> metas_encoded s0 cs ->
+  writer_init enc0 ver = (s0, Ok tt) -> enc_ok enc0 -> Forall call_good cs -> accepted s0 cs ->
   spec_serialize enc0 ver cs = Some (w_out (snd (run_calls s0 cs))).
 Proof.
-  intros enc0 ver s0 cs Hi He Hg Ha Hme.
+  intros enc0 ver s0 cs Hi He Hg Ha.
   destruct (enc_ok_arg enc0 He) as (e0 & He0 & _).
   destruct (init_spec enc0 ver s0 e0 Hi He0 He) as (v & Hv & Hout).
-  destruct (walk_correct enc0 ver s0 e0 Hi He0 He cs [] s0 (pos_init s0) Hg Ha Hme) as (suf & Hw & Hr).
+  destruct (walk_correct enc0 ver s0 e0 Hi He0 He cs [] s0 (pos_init s0) Hg Ha) as (suf & Hw & Hr).
   unfold spec_serialize. rewrite He0. cbn [obind]. rewrite Hv. cbn [obind]. rewrite Hw. cbn [obind].
   rewrite Hr, Hout. reflexivity.
 Qed.
@@ -830,43 +851,30 @@ Qed.
 (* under the same hypotheses the specification's serializer is defined: every argument is in its domain and every
    section has a legal id at its position *)
 Corollary spec_serialize_defined : forall enc0 ver s0 cs,
-  writer_init enc0 ver = (s0, Ok tt) -> enc_ok enc0 -> Forall call_good cs -> accepted s0 cs -> metas_encoded s0 cs ->
+  writer_init enc0 ver = (s0, Ok tt) -> enc_ok enc0 -> Forall call_good cs -> accepted s0 cs ->
   spec_serialize enc0 ver cs <> None.
-Proof. intros enc0 ver s0 cs Hi He Hg Ha Hme. rewrite (C02_writer_is_spec_thm _ _ _ _ Hi He Hg Ha Hme). discriminate. Qed.
-
-(* a prefix of a program in which every write_meta has an encoding in force is such a program *)
-Lemma metas_encoded_app : forall pre post s, metas_encoded s (pre ++ post) -> metas_encoded s pre.
-Proof.
-  induction pre as [|c t IH]; intros post s H; [exact I|]. cbn [app metas_encoded] in *.
-  destruct H as [H1 H2]. split; [exact H1|]. eapply IH; exact H2.
-Qed.
+Proof. intros enc0 ver s0 cs Hi He Hg Ha. rewrite (C02_writer_is_spec_thm _ _ _ _ Hi He Hg Ha). discriminate. Qed.
 
 (* every intermediate output too: the bytes after each accepted call are the serialization of the calls so far *)
 Corollary writer_is_spec_prefix : forall enc0 ver s0 pre post,
   writer_init enc0 ver = (s0, Ok tt) -> enc_ok enc0 -> Forall call_good (pre ++ post) -> accepted s0 (pre ++ post) ->
-  metas_encoded s0 (pre ++ post) ->
   spec_serialize enc0 ver pre = Some (w_out (snd (run_calls s0 pre))).
 Proof.
-  intros enc0 ver s0 pre post Hi He Hg Ha Hme. apply Forall_app in Hg. destruct Hg as [Hg _].
+  intros enc0 ver s0 pre post Hi He Hg Ha. apply Forall_app in Hg. destruct Hg as [Hg _].
   apply C02_writer_is_spec_thm; try assumption.
-  - unfold accepted in *. rewrite run_calls_app_fst in Ha. apply Forall_app in Ha. apply Ha.
-  - eapply metas_encoded_app; exact Hme.
+  unfold accepted in *. rewrite run_calls_app_fst in Ha. apply Forall_app in Ha. apply Ha.
 Qed.
 
-(* for a writer constructed with an encoding (pydiffx's default is 'utf-8') no hypothesis about write_meta *)
-Corollary writer_is_spec_encoded : forall enc0 ver s0 cs,
-  writer_init enc0 ver = (s0, Ok tt) -> enc_ok enc0 -> wv_truthy enc0 = true -> Forall call_good cs -> accepted s0 cs ->
-  spec_serialize enc0 ver cs = Some (w_out (snd (run_calls s0 cs))).
-Proof.
-  intros enc0 ver s0 cs Hi He Ht Hg Ha. apply C02_writer_is_spec_thm; try assumption.
-  eapply RoundTripCor.metas_encoded_init; eauto.
-Qed.
-
-(* without [metas_encoded] the theorem is false of the fixed writer *)
-Lemma writer_is_spec_unencoded_refuted :
+(* the new path of the fixed writer, on an instance: DiffXWriter(encoding=None); write_meta({'k': 1}) is accepted,
+   no encoding is in force, and both sides are these bytes *)
+Lemma writer_is_spec_unencoded_ex :
   exists enc0 ver s0 cs,
     writer_init enc0 ver = (s0, Ok tt) /\ enc_ok enc0 /\ Forall call_good cs /\ accepted s0 cs /\
-    ~ metas_encoded s0 cs /\ spec_serialize enc0 ver cs = None.
+    ~ metas_encoded s0 cs /\
+    spec_serialize enc0 ver cs = Some (w_out (snd (run_calls s0 cs))) /\
+    w_out (snd (run_calls s0 cs)) =
+      B "#diffx: version=1.0" ++ [x0a] ++ B "#.meta: format=json, length=15" ++ [x0a] ++
+      B "{" ++ [x0a] ++ B "    ""k"": 1" ++ [x0a] ++ B "}" ++ [x0a].
 Proof.
   exists WNone, (WStr (ascii_text (B "1.0"))), (fst (writer_init WNone (WStr (ascii_text (B "1.0"))))),
          [WriteMeta (WDict (JObj [(ascii_text (B "k"), JInt 1)])) WNone None].
@@ -874,7 +882,7 @@ Proof.
   split; [constructor; [split; [left; reflexivity|eexists; reflexivity]|constructor]|].
   split; [unfold accepted; vm_compute; repeat constructor|].
   split; [intros [H _]; vm_compute in H; discriminate H|].
-  vm_compute. reflexivity.
+  split; vm_compute; reflexivity.
 Qed.
 
 (* ================================================================================================ *)
@@ -886,7 +894,6 @@ Lemma spec_example :
   writer_init RoundTripSeqExample.ex_enc0 RoundTripSeqExample.ex_ver = (RoundTripSeqExample.ex_s0, Ok tt) /\
   enc_ok RoundTripSeqExample.ex_enc0 /\ Forall call_good RoundTripSeqExample.ex_cs /\
   accepted RoundTripSeqExample.ex_s0 RoundTripSeqExample.ex_cs /\
-  metas_encoded RoundTripSeqExample.ex_s0 RoundTripSeqExample.ex_cs /\
   spec_serialize RoundTripSeqExample.ex_enc0 RoundTripSeqExample.ex_ver RoundTripSeqExample.ex_cs
     = Some (w_out (snd (run_calls RoundTripSeqExample.ex_s0 RoundTripSeqExample.ex_cs))) /\
   option_map (@length byte)
@@ -894,7 +901,6 @@ Lemma spec_example :
 Proof.
   split; [exact RoundTripSeqExample.ex_init|]. split; [exact RoundTripSeqExample.ex_enc0_ok|].
   split; [exact RoundTripSeqExample.ex_good|]. split; [exact RoundTripSeqExample.ex_accepted|].
-  split; [exact RoundTripSeqExample.ex_metas|].
   split; vm_compute; reflexivity.
 Qed.
 
